@@ -88,10 +88,10 @@ CLAIMED = {
 
 # extraction ties added after the first build: appended to technique / level text / trusted base
 EXTRA = {
-    "C01": ("score_beats_threshold, the naive matcher's loop body, the decision loop and fp/fn/rq/pq", "beats_metric_ok, naive_loop_ok, decision_loop_ok, fp_ok, fn_ok, rq_ok, products_ok"),
+    "C01": ("score_beats_threshold, the naive matcher's loop body, the decision loop, fp/fn/rq/pq and the phase program of panoptic_evaluate with the wiring of its calls", "beats_metric_ok, naive_loop_ok, decision_loop_ok, fp_ok, fn_ok, rq_ok, products_ok, phases_ok, wiring_ok, entry_ok"),
     "C02": ("the decision loop of evaluate_matched_instance, fp/fn/prec/rec/rq/pq* formulas and the sq* readers, score_beats_threshold", "decision_loop_ok, fp_ok, fn_ok, prec_ok, rec_ok, rq_ok, products_ok, readers_ok, beats_metric_ok"),
     "C03": ("score_beats_threshold (both classes), the naive matcher's loop body, the pair code of _calc_overlapping_labels (width, masked side, filter, decoding) and the fresh-label / dtype decisions of the relabelling", "beats_metric_ok, beats_impl_ok, naive_loop_ok, code_ok, keep_ok, decode_ok, acc_bits_ok, masked_ok, fit_ok, fresh_base_ok, fresh_kth_ok, missed_ok, table_ok; plus uniqueness of the greedy matching on tie-free input (C03Unique.unique)"),
-    "C08": ("the zero-TP scenario if/elif chain and the constructor of MetricZeroTPEdgeCaseHandling (own argument, else default_result)", "scenario_chain_ok, handler_ctor_ok, handler_entry_sem, handler_keys_ok"),
+    "C08": ("the zero-TP scenario if/elif chain the constructor of MetricZeroTPEdgeCaseHandling (own argument, else default_result) and the phase program of panoptic_evaluate (where the zero-instance step sits and what it is given)", "scenario_chain_ok, handler_ctor_ok, handler_entry_sem, handler_keys_ok, phases_ok, wiring_ok"),
     "C13": ("the scenario chain, the edge branch of _calc_global_bin_metric (guard, count arguments) the constructor of MetricZeroTPEdgeCaseHandling, and the crop bounds", "scenario_chain_ok, global_bin_call_ok, handler_ctor_ok, handler_entry_sem, handler_keys_ok, bbox_bounds_ok, paired_crop_ok"),
     "C14": ("the merge matcher's loop body incl. the improvement test and score bookkeeping, score_beats_threshold, the pair code of _calc_overlapping_labels", "merge_loop_ok, beats_metric_ok, code_ok, keep_ok, decode_ok, acc_bits_ok, masked_ok; the oracle's best-free-candidate clause is the theorem C14.final_at_least_best_free"),
     "C16": ("the lock/file skeleton of evaluate, _save_one_subject and make_statistic, the two module-level locks, and the value of every path argument (symbolic evaluation of the constructor)", "evaluate_fresh_ok, evaluate_claimed_ok, stat_ok, locks_ok (event sequences equal those of Agg.step), out_paths_ok, path_branches_ok"),
@@ -99,9 +99,11 @@ EXTRA = {
     "C11": (None, "end-to-end theorem pipeline_mirror (unmatched input, one-to-one matching on IoU/Dice, tie-free candidates: tp equal, counts exchanged, per-instance lists permuted) via uniqueness of the valid matching"),
     "C09": ("the pair code of _calc_overlapping_labels (expression, 64-bit accumulation, masked side, filter, decoding) and the dtype / fresh-label decisions of the relabelling", "code_ok, max_ref_ok, keep_ok, decode_ok, acc_bits_ok, masked_ok, unique_ok, fit_ok, fresh_base_ok, fresh_kth_ok, table_ok; end-to-end theorem pipeline_rename (injective renaming of both label sets and change of integer width: counts and tp equal, per-instance lists permuted, tie-free candidates) via uniqueness of the valid matching"),
     "C04": ("_get_smallest_fitting_uint, the fresh labels of map_instance_labels and the table of _map_labels", "fit_ok, fit_holds, fresh_base_ok, fresh_kth_ok, missed_ok, table_ok (lifted to fullLabelMap / assignFresh / mapBits)"),
+    "C05": ("the backend decision, the per-side labelling / emptiness guards, result dtype and counts of _approximate_instances and the library calls of _connected_components", "backend_default_ok, backend_config_ok, sides_ok, result_dtype_ok, cc_dispatch_ok"),
+    "C15": ("that _approximate_instances does not write to the approximator object (and its backend decision)", "backend_config_ok, backend_default_ok"),
     "C06": (None, "centre-line Dice exercised in five memory layouts with and without label selection; large-scale masks (2^22 .. 2^24 voxels) judged by exact integer counts"),
     "C19": (None, "label_norm_idem / label_norm_order_free: the one list normalisation of a constructor (sorted set of labels) is proved idempotent and order-independent"),
-    "C10": ("the slice bounds of _get_bbox_nd and the union / fallback / padding of _get_paired_crop", "bbox_bounds_ok, bbox_covers, paired_crop_ok (lifted to bboxNd); end-to-end theorem pipeline_counts_invariant for instance input, threshold matching on IoU/Dice and the metrics IoU/Dice/RVD"),
+    "C10": ("the slice bounds of _get_bbox_nd, the union / fallback / padding of _get_paired_crop and the backend decision by number of axes", "bbox_bounds_ok, bbox_covers, paired_crop_ok (lifted to bboxNd), backend_default_ok; end-to-end theorem pipeline_counts_invariant for instance input, threshold matching on IoU/Dice and the metrics IoU/Dice/RVD"),
 }
 
 SCALE = {"C01", "C03", "C04", "C06", "C07", "C10", "C14"}
